@@ -346,7 +346,17 @@ def fresh_rules(run, db, rule='C01.cache'):
 
 
 def origin_rules(run, db):
+    from .c01values import defer_to_fft_routes
     for name, direction in (('focus', 'fft2'), ('unfocus', 'ifft2')):
+        try:
+            _origin_rules_for(run, db, name, direction)
+        except AnalysisError as e:
+            if not defer_to_fft_routes(run, db, 'C01.origin (%s)' % name, e, [('C01.origin', 4)]):
+                raise
+
+
+def _origin_rules_for(run, db, name, direction):
+    if True:
         f = db.func('prysm.propagation.' + name)
         for parity in (0, 1):
             dom = OriginDomain(parity)
